@@ -2,8 +2,9 @@
    records.  Property theorems only; proofs are in proofs/OverlapAllele.v.
    The positional groups themselves are the subject of C11. *)
 From Coq Require Import Permutation.
-From MafVerif Require Import lib.Base model.Overlap spec.SpecOverlap
-     proofs.OverlapStreamFacts proofs.OverlapAllele.
+From MafVerif Require Import lib.Base lib.OverlapLib model.Overlap spec.SpecOverlap
+     proofs.OverlapFacts proofs.OverlapStreamFacts proofs.OverlapAllele proofs.OverlapOrder
+     proofs.OverlapAlleleTop.
 
 Notation o_should_add t := (should_add oref oalts t).
 Notation o_accepted t := (accepted oref oalts (rel_of t)).
@@ -81,6 +82,26 @@ Theorem C12_groups_with_empty_first_slot_are_skipped :
       o_next_group c mid = (ins', Done g).
 Proof. intros c. exact (first_nonempty_spec rtruthy ccls_cmp ccls_eqb (okey c)). Qed.
 Print Assumptions C12_groups_with_empty_first_slot_are_skipped.
+
+(* the whole run, under the hypotheses of C11 (truthy records, known contigs,
+   start <= end, every input sorted by the chosen order): with gs the exact
+   positional grouping of C11,
+     list(LocatableByAlleleOverlapIterator(inputs, overlap_type=t, ...))
+   is the concatenation, over the groups g of gs in order, of one allele group
+   [class; filter class g[1]; filter class g[2]; ...] per greedy class of g[0]
+   (pallele); groups with an empty first slot contribute nothing.  In
+   particular every record of the first input is returned exactly once. *)
+Theorem C12_whole_run_is_classes_of_each_positional_group :
+  forall (c : cfg) (t : otype) (xss : list (list orec)),
+    (forall r, In r (concat xss) -> rtruthy r = true) ->
+    (forall r, In r (concat xss) -> known_contig c r) ->
+    (forall r, In r (concat xss) -> wf_interval rstart rend r) ->
+    Forall (sorted_input (fun r => kcls (okeyK c r)) rstart rend (clt ccls_cmp)) xss ->
+    exists gs, o_overlap_iter c xss = Done gs /\
+               exact_grouping (fun r => kcls (okeyK c r)) rstart rend (clt ccls_cmp) xss gs /\
+               o_allele_iter c t xss = Done (pallele rtruthy oref oalts t gs).
+Proof. exact allele_iter_concrete. Qed.
+Print Assumptions C12_whole_run_is_classes_of_each_positional_group.
 
 (* ---------------- non-vacuity ---------------- *)
 Definition al (i s e : Z) (r : N) (alts : list N) : orec :=
